@@ -411,8 +411,10 @@ func (m *M) assertCond(c Bool, id string, pos string, knownID string, knownCond 
 	}
 	if c.conc {
 		if m.replayVals != nil {
-			if id == m.replayTarget && len(m.taken) >= len(m.prefix) && !m.replayDone {
-				m.replayDone, m.replayOK = true, !c.v
+			// concrete assertions take no slot of the decision vector, so several evaluations of the same id (a loop)
+			// can follow the last recorded decision: the violation is confirmed if any of them is false
+			if id == m.replayTarget && len(m.taken) >= len(m.prefix) && !c.v {
+				m.replayDone, m.replayOK = true, true
 			}
 			return
 		}
